@@ -43,6 +43,14 @@ void libxmp_release_module_extras(struct context_data *ctx)
 		libxmp_far_release_module_extras(m);
 }
 
+void libxmp_reset_module_extras(struct context_data *ctx)
+{
+	struct module_data *m = &ctx->m;
+
+	if (HAS_FAR_MODULE_EXTRAS(*m))
+		libxmp_far_reset_module_extras(m);
+}
+
 /*
  * Channel extras
  */
